@@ -225,6 +225,22 @@ _add_key(xmpp_ctx_t *ctx, hash_t *table, const char *key, char *buf, int quote)
     return buf;
 }
 
+/* is "auth" one of the alternatives in the server's qop-options list? */
+static int _qop_offers_auth(const char *qop)
+{
+    size_t n;
+
+    while (*qop != '\0') {
+        while ((*qop == ',') || (*qop == ' '))
+            qop++;
+        n = strcspn(qop, ", ");
+        if (n == 4 && strncmp(qop, "auth", 4) == 0)
+            return 1;
+        qop += n;
+    }
+    return 0;
+}
+
 /** generate auth response string for the SASL DIGEST-MD5 mechanism */
 char *sasl_digest_md5(xmpp_ctx_t *ctx,
                       const char *challenge,
@@ -282,7 +298,11 @@ char *sasl_digest_md5(xmpp_ctx_t *ctx,
     xmpp_rand_nonce(ctx->rand, cnonce, sizeof(cnonce));
     hash_add(table, "cnonce", strophe_strdup(ctx, cnonce));
     hash_add(table, "nc", strophe_strdup(ctx, "00000001"));
-    if (hash_get(table, "qop") == NULL)
+    /* the server sends a list of qop-options, the reply carries exactly one
+       of them (RFC 2831, 2.1.2); "auth" is the default and the only one
+       without a security layer */
+    if (hash_get(table, "qop") == NULL ||
+        _qop_offers_auth(hash_get(table, "qop")))
         hash_add(table, "qop", strophe_strdup(ctx, "auth"));
     value = strophe_alloc(ctx, 5 + strlen(domain) + 1);
     memcpy(value, "xmpp/", 5);
